@@ -55,7 +55,7 @@ func (b *filler) fill(d *tv.Desc, v reflect.Value) {
 		if mode == 0 {
 			setNum(d, v, 1000+k)
 		}
-	case d.K == "string", d.K == "pool:MethStr":
+	case d.K == "string", d.K == "pool:MethStr", d.K == "pool:PlainStr":
 		if mode == 0 {
 			v.SetString("v" + strconv.Itoa(k))
 		}
@@ -176,7 +176,7 @@ func (m *model) inputFor(c *cand, i int, fl flags) (txt string, invalid bool) {
 	switch {
 	case isNumeric(base.K):
 		txt = num
-	case base.K == "string", base.K == "pool:MethStr":
+	case base.K == "string", base.K == "pool:MethStr", base.K == "pool:PlainStr":
 		txt = quote("w" + strconv.Itoa(i))
 	case base.K == "pool:MethSlice":
 		txt = "[" + num + "]"
@@ -232,7 +232,7 @@ func (m *model) setLeaf(d *tv.Desc, v reflect.Value, i int) {
 	switch {
 	case isNumeric(d.K):
 		setNum(d, v, 5000+i)
-	case d.K == "string", d.K == "pool:MethStr":
+	case d.K == "string", d.K == "pool:MethStr", d.K == "pool:PlainStr":
 		v.SetString("w" + strconv.Itoa(i))
 	case d.K == "pool:MethSlice":
 		v.Set(reflect.ValueOf(MethSlice{len("[" + strconv.Itoa(5000+i) + "]")}))
